@@ -910,13 +910,12 @@ class Operations:
         oldnpts = knotvector.npts
         degree = knotvector.degree
         oldspan = knotvector.span(node)
-        oldmult = knotvector.mult(node)
         one = knotvector[-1] - knotvector[0]
         one /= one
         matrix = np.zeros((oldnpts + 1, oldnpts), dtype="object")
         for i in range(oldspan - degree + 1):
             matrix[i, i] = one
-        for i in range(oldspan - oldmult, oldnpts):
+        for i in range(oldspan, oldnpts):
             matrix[i + 1, i] = one
         for i in range(oldspan - degree + 1, oldspan + 1):
             alpha = node - knotvector[i]
